@@ -161,6 +161,14 @@ func (v *PacketDslVisitorImpl) VisitPacketDefinition(ctx *gen.PacketDefinitionCo
 				lengthField = fld
 			}
 
+			if _, exists := fieldMap[fld.Name]; exists {
+				v.BinModel.AddSyntaxError(&model.SyntaxError{
+					Line:   fctx.GetStart().GetLine(),
+					Column: fctx.GetStart().GetColumn(),
+					Msg:    "Duplicate field definition for " + fld.Name + " in packet " + name,
+				})
+				continue
+			}
 			fields = append(fields, fld)
 			fieldMap[fld.Name] = fld
 
@@ -404,6 +412,20 @@ func (v *PacketDslVisitorImpl) VisitInerObjectField(ctx *gen.InerObjectFieldCont
 			continue
 		}
 		f := fld.(*model.Field)
+		duplicate := false
+		for _, prev := range subFields {
+			if prev.Name == f.Name {
+				duplicate = true
+			}
+		}
+		if duplicate {
+			v.BinModel.AddSyntaxError(&model.SyntaxError{
+				Line:   fctx.GetStart().GetLine(),
+				Column: fctx.GetStart().GetColumn(),
+				Msg:    "Duplicate field definition for " + f.Name + " in " + name,
+			})
+			continue
+		}
 		subFields = append(subFields, f)
 	}
 	// Construct nested Packet model
